@@ -140,6 +140,8 @@ func c07Pipe(tag string, remoteIP, localIP string, port int) *c07Remote {
 // configuration of one scenario
 
 type c07Cfg struct {
+	kaSet           bool // keepalive-interval configured explicitly (else the default hold-time/3)
+	ka              int
 	localAS, peerAS uint32 // peerAS: configured (0 = any)
 	localID         string
 	hold            int // configured hold time
@@ -172,13 +174,21 @@ type c07Sess struct {
 
 func c07Start(t *testing.T, cfg c07Cfg) *c07Sess { return c07StartPeer(t, cfg, nil) }
 
+// cfgKa is the configured keepalive interval in whole seconds (time.Duration(float) truncates)
+func (c c07Cfg) cfgKa() int {
+	if c.kaSet {
+		return c.ka
+	}
+	return c.hold / 3
+}
+
 // c07PeerConf is the passive single-family peer of the session scenarios
 func c07PeerConf(cfg c07Cfg) *api.Peer {
 	p := &api.Peer{
 		Conf:      &api.PeerConf{NeighborAddress: c07PeerAddr, PeerAsn: cfg.peerAS},
 		Transport: &api.Transport{PassiveMode: true},
 		Timers: &api.Timers{Config: &api.TimersConfig{HoldTime: uint64(cfg.hold),
-			KeepaliveInterval: uint64(cfg.hold / 3), IdleHoldTimeAfterReset: uint64(cfg.idleAfterReset)}},
+			KeepaliveInterval: uint64(cfg.cfgKa()), IdleHoldTimeAfterReset: uint64(cfg.idleAfterReset)}},
 	}
 	if cfg.prefixLimit > 0 {
 		p.AfiSafis = []*api.AfiSafi{{
@@ -224,6 +234,19 @@ func c07StartPeer(t *testing.T, cfg c07Cfg, peerConf *api.Peer) *c07Sess {
 	}
 	_ = s.mgmtOperation(func() error {
 		ss.peer = s.neighborMap[netip.MustParseAddr(c07PeerAddr)]
+		// the API turns hold-time 0 / keepalive-interval 0 into the defaults; a configuration
+		// file can set them (viper.IsSet): put the exact values where the file would
+		f := ss.peer.fsm
+		f.lock.Lock()
+		conf := f.pConf.ReadCopy()
+		conf.Timers.Config.HoldTime = float64(cfg.hold)
+		if cfg.kaSet {
+			conf.Timers.Config.KeepaliveInterval = float64(cfg.ka)
+		} else {
+			conf.Timers.Config.KeepaliveInterval = float64(cfg.hold) / 3
+		}
+		f.pConf.Update(&conf)
+		f.lock.Unlock()
 		return nil
 	}, false)
 	synctest.Wait()
@@ -708,6 +731,8 @@ type c07Oracle struct {
 	openHold int  // hold time of that OPEN
 	holdAt   int  // instant the running hold timer was (re)started
 	holdLen  int  // its length, 0 = not running
+	kaNext   int  // next instant the keepalive ticker of the current state must fire
+	kaP      int  // its period, 0 = no ticker (negotiated hold time 0)
 	idleLen  int  // what the event that caused the current IDLE period prescribes for its length
 	idleDue  int  // instant the running idle hold timer must fire (-1: not running)
 	idleNo   int  // ordinal of the IDLE period
@@ -794,6 +819,38 @@ func (or *c07Oracle) check(e c07Ev, before c07Obs, tBefore int, after c07Obs, tA
 	for _, s := range after.out {
 		if i := strings.Index(s, ":notif-"); i >= 0 {
 			notifs = append(notifs, s[i+7:])
+		}
+	}
+	if e.kind == "tick" && (before.fsm == 4 || before.fsm == 5) {
+		// KEEPALIVEs: none at all with a negotiated hold time of zero (RFC 4271 4.4); otherwise
+		// one every period, counted from the entry into the state, until the hold timer fires
+		deadline := 1 << 40
+		if or.holdLen > 0 {
+			deadline = or.holdAt + or.holdLen
+		}
+		var wantKa, gotKa []string
+		if or.kaP > 0 {
+			for ; or.kaNext <= tAfter && or.kaNext < deadline; or.kaNext += or.kaP {
+				wantKa = append(wantKa, fmt.Sprint(or.kaNext))
+			}
+		}
+		for _, s := range after.out {
+			if i := strings.Index(s, ":ka@"); i >= 0 {
+				gotKa = append(gotKa, s[i+4:])
+			}
+		}
+		if strings.Join(gotKa, ",") != strings.Join(wantKa, ",") {
+			class := "keepalive:wrong-instants"
+			if or.kaP == 0 {
+				class = "keepalive:sent-with-zero-hold-time"
+			}
+			show := func(l []string) string {
+				if len(l) > 12 {
+					return fmt.Sprintf("%v … (%d)", l[:12], len(l))
+				}
+				return fmt.Sprint(l)
+			}
+			or.fail(class, fmt.Sprintf("state %d, configured hold %d keepalive %d, OPEN hold %d, silence %d..%d: KEEPALIVEs at %s, want %s", before.fsm, or.cfg.hold, or.cfg.cfgKa(), or.openHold, tBefore, tAfter, show(gotKa), show(wantKa)))
 		}
 	}
 	if e.kind == "tick" {
@@ -889,6 +946,17 @@ func (or *c07Oracle) check(e c07Ev, before c07Obs, tBefore int, after c07Obs, tA
 			or.holdAt, or.holdLen = at, 240
 		case 4, 5:
 			or.holdAt, or.holdLen = at, min(or.openHold, or.cfg.hold)
+			// the ticker is created anew on entering either state; its period: a third of the
+			// negotiated hold time when the peer's is the smaller one, else as configured; 1 s at least
+			or.kaP = 0
+			if neg := or.holdLen; neg > 0 {
+				or.kaP = or.cfg.cfgKa()
+				if neg < or.cfg.hold {
+					or.kaP = neg / 3
+				}
+				or.kaP = max(or.kaP, 1)
+			}
+			or.kaNext = at + or.kaP
 		default:
 			or.holdLen = 0
 			if b == 0 {
@@ -1042,7 +1110,7 @@ func c07Scenario(t *testing.T, o *vOut, cfg c07Cfg, seed uint64, maxLen int, scr
 		defer ss.stop()
 		c07CurState = func() int { return int(ss.peer.fsm.state.Load()) }
 		or := &c07Oracle{o: o, cfg: cfg}
-		o.op("cfg %d %d %d %d %d %d %d", cfg.localAS, c07IDNum(cfg.localID), cfg.peerAS, cfg.hold, cfg.hold/3, cfg.idleAfterReset, cfg.prefixLimit)
+		o.op("cfg %d %d %d %d %d %d %d", cfg.localAS, c07IDNum(cfg.localID), cfg.peerAS, cfg.hold, cfg.cfgKa(), cfg.idleAfterReset, cfg.prefixLimit)
 		// the model starts in IDLE with an expired idle hold timer; the first event is `tick 0`
 		before := c07Obs{}
 		ibgp := false
@@ -1287,7 +1355,10 @@ func TestVerifC07(t *testing.T) {
 		// {2-octet, 4-octet} local AS x {eBGP 2-octet, eBGP 4-octet, iBGP, any} peer AS
 		cfg := c07Cfg{localAS: uint32(r.pick(65001, 65001, 65001, 70000, 70000)), localID: "1.1.1.1", idleAfterReset: 30}
 		cfg.peerAS = uint32(r.pick(65002, 65002, 65002, 70002, 70002, 0, int(cfg.localAS), int(cfg.localAS)))
-		cfg.hold = r.pick(90, 90, 30, 9, 10, 240)
+		cfg.hold = r.pick(90, 90, 30, 9, 10, 240, 3, 0)
+		if r.chance(25) {
+			cfg.kaSet, cfg.ka = true, r.pick(0, 1, cfg.hold/3+2, cfg.hold, 7)
+		}
 		if r.chance(30) {
 			cfg.prefixLimit = r.pick(1, 2, 3, 5)
 		}
@@ -1324,6 +1395,61 @@ func TestVerifC07(t *testing.T) {
 
 	// (5) management-driven shutdown by prefix-limit edits over several families
 	c07PrefixEdits(t, o, r)
+
+	// (6) configured timer values at the edge of their domain, every combination
+	c07TimerEdges(t, o)
+
+	// (7) the NOTIFICATION on the wire under every outcome of the RFC 8538 negotiation
+	c07WireNotifs(t, o)
+}
+
+// c07TimerEdges: hold-time {0, 3, 90, 65535} x keepalive-interval {absent, 0, 1, > hold/3, = hold}
+// x the peer's hold time {0, 3, less, equal, greater} x {OPENCONFIRM, ESTABLISHED}, then silence
+// over two hold periods (capped at 2500 keepalive periods): the instants of every KEEPALIVE and of
+// the Hold Timer Expired NOTIFICATION against the model and the oracle.
+func c07TimerEdges(t *testing.T, o *vOut) {
+	for _, hold := range []int{0, 3, 90, 65535} {
+		for kaMode := 0; kaMode < 5; kaMode++ {
+			cfg := c07Cfg{localAS: 65001, peerAS: 65002, localID: "1.1.1.1", hold: hold, idleAfterReset: 30}
+			switch kaMode {
+			case 1:
+				cfg.kaSet, cfg.ka = true, 0
+			case 2:
+				cfg.kaSet, cfg.ka = true, 1
+			case 3:
+				cfg.kaSet, cfg.ka = true, hold/3+7
+			case 4:
+				cfg.kaSet, cfg.ka = true, hold
+			}
+			seen := map[int]bool{}
+			for _, peer := range []int{0, 3, hold / 2, hold, min(2*hold, 65535), 90} {
+				if seen[peer] || peer == 1 || peer == 2 {
+					continue
+				}
+				seen[peer] = true
+				for _, stage := range []int{4, 5} {
+					neg := min(peer, hold)
+					period := cfg.cfgKa()
+					if neg < hold {
+						period = neg / 3
+					}
+					period = max(period, 1)
+					silence := 200
+					if neg > 0 {
+						silence = min(2*neg+1, 2500*period)
+					}
+					first := min(max(neg-1, 1), silence)
+					sc := []c07Ev{{kind: "connect"}, c07OpenEv("open", 65002, c07IDNum("2.2.2.2"), peer)}
+					if stage == 5 {
+						sc = append(sc, c07Ev{kind: "keepalive"})
+					}
+					sc = append(sc, c07Ev{kind: "tick", n: first}, c07Ev{kind: "tick", n: silence - first})
+					c07Scenario(t, o, cfg, 1, len(sc)+1, sc)
+					o.stat("timer_edge_scenarios", 1)
+				}
+			}
+		}
+	}
 }
 
 // c07History scripts `cycles` sessions: bring-up, something that ends the session (or the
@@ -2056,5 +2182,132 @@ func c07PrefixEdits(t *testing.T, o *vOut, r *vRand) {
 			fams = append(fams, f)
 		}
 		c07PrefixEdit(t, o, fams, r.chance(50))
+	}
+}
+
+// ---------------------------------------------------------------------------------------------
+// RFC 8538: the NOTIFICATION the daemon WRITES on an established session for every way it ends
+// one, under every outcome of the notification-support negotiation of graceful restart.
+
+func c07WireNotif(t *testing.T, o *vOut, grLocal, notifLocal, peerGR, peerN bool, action string) {
+	synctest.Test(t, func(t *testing.T) {
+		cfg := c07Cfg{localAS: 65001, peerAS: 65002, localID: "1.1.1.1", hold: 30, idleAfterReset: 30}
+		fam := &api.Family{Afi: api.Family_AFI_IP, Safi: api.Family_SAFI_UNICAST}
+		conf := func(limit int) *api.Peer {
+			p := c07PeerConf(cfg)
+			p.GracefulRestart = &api.GracefulRestart{Enabled: grLocal, RestartTime: 120, NotificationEnabled: notifLocal}
+			p.AfiSafis = []*api.AfiSafi{{
+				Config:            &api.AfiSafiConfig{Family: fam, Enabled: true},
+				MpGracefulRestart: &api.MpGracefulRestart{Config: &api.MpGracefulRestartConfig{Enabled: grLocal}},
+				PrefixLimits:      &api.PrefixLimit{Family: fam, MaxPrefixes: uint32(limit)},
+			}}
+			return p
+		}
+		limit := 0
+		if action == "prefix-limit-receive" {
+			limit = 2
+		}
+		ss := c07StartPeer(t, cfg, conf(limit))
+		defer ss.stop()
+		ss.connect()
+		caps := []bgp.ParameterCapabilityInterface{bgp.NewCapMultiProtocol(bgp.RF_IPv4_UC), bgp.NewCapFourOctetASNumber(65002), bgp.NewCapRouteRefresh()}
+		if peerGR {
+			caps = append(caps, bgp.NewCapGracefulRestart(false, peerN, 120, []*bgp.CapGracefulRestartTuple{bgp.NewCapGracefulRestartTuple(bgp.RF_IPv4_UC, true)}))
+		}
+		m, _ := bgp.NewBGPOpenMessage(65002, 30, netip.MustParseAddr("2.2.2.2"), []bgp.OptionParameterInterface{bgp.NewOptionParameterCapability(caps)})
+		b, _ := m.Serialize()
+		ss.send(ss.pas, b)
+		ss.send(ss.pas, c07Keepalive())
+		synctest.Wait()
+		ss.remoteAS, ss.inEstablished = 65002, true
+		ss.send(ss.pas, ss.update(2, false))
+		synctest.Wait()
+		if st := ss.peer.fsm.state.Load(); st != bgp.BGP_FSM_ESTABLISHED || ss.ribCount() != 2 {
+			t.Fatalf("wire-notification scenario: state %v, %d routes", st, ss.ribCount())
+		}
+		ss.rec.drain()
+		ctx := context.Background()
+		code, sub := 6, 0 // what RFC 4271 / 4486 / 6608 prescribe before RFC 8538 is applied
+		switch action {
+		case "shutdown":
+			sub = 2
+			_ = ss.s.ShutdownPeer(ctx, &api.ShutdownPeerRequest{Address: c07PeerAddr})
+		case "disable":
+			sub = 2
+			_ = ss.s.DisablePeer(ctx, &api.DisablePeerRequest{Address: c07PeerAddr})
+		case "delete":
+			sub = 3
+			_ = ss.s.DeletePeer(ctx, &api.DeletePeerRequest{Address: c07PeerAddr})
+		case "reset":
+			sub = 4
+			_ = ss.s.ResetPeer(ctx, &api.ResetPeerRequest{Address: c07PeerAddr})
+		case "prefix-limit-receive":
+			sub = 1
+			ss.send(ss.pas, ss.update(1, false))
+		case "prefix-limit-edit":
+			sub = 1
+			if _, err := ss.s.UpdatePeer(ctx, &api.UpdatePeerRequest{Peer: conf(1)}); err != nil {
+				t.Fatalf("UpdatePeer: %v", err)
+			}
+		case "hold-expiry":
+			code, sub = 4, 0
+			time.Sleep(30 * time.Second)
+		case "open-in-established":
+			code, sub = 5, 3
+			ss.send(ss.pas, c07Open(65002, "2.2.2.2", 30, 4))
+		case "bad-header":
+			code, sub = 1, 1
+			ss.send(ss.pas, c07BadHeader(0))
+		}
+		synctest.Wait()
+		out, _ := ss.rec.drain()
+		got := "none"
+		for _, s := range out {
+			if i := strings.Index(s, ":notif-"); i >= 0 {
+				got = s[i+7 : strings.Index(s, "@")]
+				break
+			}
+		}
+		b2i := map[bool]int{true: 1}
+		o.ask(got, "wirenotif %d %d %d %d %d %d", b2i[grLocal], b2i[notifLocal], b2i[peerGR], b2i[peerN], code, sub)
+		// RFC 8538: Hard Reset only towards a peer that sent the N bit and only when we do
+		// notification support ourselves; shutdown / de-configuration / prefix limit end the
+		// session for good; an administrative RESET and everything that is not a Cease stay
+		n := grLocal && notifLocal && peerGR && peerN
+		want := fmt.Sprintf("%d-%d", code, sub)
+		if n && code == 6 && (sub == 1 || sub == 2 || sub == 3) {
+			want = "6-9"
+		}
+		mode := fmt.Sprintf("gr-local=%v,notification-local=%v,peer-gr=%v,peer-N=%v", grLocal, notifLocal, peerGR, peerN)
+		st, adj := ss.peer.fsm.state.Load(), ss.ribCount()
+		detail := map[string]any{"negotiation": mode, "action": action,
+			"what": fmt.Sprintf("daemon wrote %v; state %v; %d routes left in the Adj-RIB-In; RFC 8538 wants NOTIFICATION %s", out, st, adj, want)}
+		_, _, found := ss.listPeer()
+		if got != want {
+			o.fail("wire-notification:"+action+":n-negotiated="+fmt.Sprint(n), detail)
+		} else if (action == "delete" && found) || (action != "delete" && st == bgp.BGP_FSM_ESTABLISHED) {
+			o.fail("notification:session-not-torn-down", detail)
+		} else if action != "hold-expiry" && adj != 0 {
+			// a NOTIFICATION of ours ends the session for good (only a hold-timer expiry may start a
+			// graceful restart of the peer, gobgp issue 2174)
+			o.fail("wire-notification:routes-kept-after-our-notification:"+action, detail)
+		}
+		o.stat(fmt.Sprintf("wirenotif_n=%v_%s", n, got), 1)
+	})
+}
+
+func c07WireNotifs(t *testing.T, o *vOut) {
+	modes := [][4]bool{
+		{false, false, false, false}, // graceful restart not negotiated
+		{true, false, true, false},   // graceful restart without N
+		{true, true, true, false},    // N configured only locally
+		{true, false, true, true},    // N offered by the peer only
+		{false, false, true, true},   // peer offers, we do no graceful restart at all
+		{true, true, true, true},     // N negotiated
+	}
+	for _, m := range modes {
+		for _, a := range []string{"shutdown", "disable", "delete", "reset", "prefix-limit-receive", "prefix-limit-edit", "hold-expiry", "open-in-established", "bad-header"} {
+			c07WireNotif(t, o, m[0], m[1], m[2], m[3], a)
+		}
 	}
 }
